@@ -1,7 +1,7 @@
 (* Property C19 - wait_until: the inner future/stream is untouched until the deadline resolves. *)
 From Coq Require Import List Arith Bool.
 Import ListNotations.
-Require Import ScanFull InstsFull Pass C11Groups PassProofs Monitors LivePass.
+Require Import ScanFull InstsFull Pass C11Groups PassProofs Monitors LivePass PassNoUnwind.
 
 (* child 0 = the deadline, child 1 = the inner future (stream = false) or stream (stream = true).
    [Pw s t]: before the deadline resolved every child poll is (deadline, Pending) and nothing has been returned; afterwards the poll list is
@@ -41,3 +41,9 @@ Example C19_resolves_witness :
   let P := {| fires := []; answer := APend |} in let R v := {| fires := []; answer := AReady (ROk v) |} in
   map (fun k => results (strip (tr _ (wait_world false [[P; R 0]; [P; P; R 7]] (repeat OPollFresh k))))) [3; 4] = [[]; [OVals [7]]].
 Proof. vm_compute. reflexivity. Qed.
+
+(* wait_until never unwinds by itself: an `EEndX` in the history implies that the deadline's or the inner's poll panicked *)
+Theorem C19_wait_until_unwinds_only_on_child_panic stream scs ops :
+  In EEndX (strip (tr _ (wait_world stream scs ops))) -> In (EAns APanic) (strip (tr _ (wait_world stream scs ops))).
+Proof. exact (wait_until_unwinds_only_on_child_panic stream scs ops). Qed.
+Print Assumptions C19_wait_until_unwinds_only_on_child_panic.
